@@ -232,6 +232,12 @@ def judge_contest_level(m, N, tallies, alpha, r1):
             each = {name: a.find_sample_size(data=None, rate_1=r1, rate_2=0, reps=None) for name, a in con.assertions.items()}
             con2, cons2, audit2 = fresh()
             got = con2.find_sample_size(audit2)
+            attr2 = con2.sample_size
+            # the same Contest asked again under assumptions that need fewer cards: the estimate is the maximum over
+            # its assertions for *this* call, not a running maximum over calls
+            audit2.error_rate_1 = 0
+            each0 = {name: a.find_sample_size(data=None, rate_1=0, rate_2=0, reps=None) for name, a in fresh()[0].assertions.items()}
+            got_again = con2.find_sample_size(audit2)
             con3, cons3, audit3 = fresh()
             got_a = audit3.find_sample_size(contests=cons3, cvrs=cvrs)
             size3 = con3.sample_size
@@ -243,8 +249,10 @@ def judge_contest_level(m, N, tallies, alpha, r1):
         except Exception as e:  # noqa
             return [(f"C16|contest-level|exception|{type(e).__name__}", f"{type(e).__name__}: {str(e)[:80]}")], None
     want = max(each.values())
-    if got != want or con2.sample_size != want:
-        out.append(("C16|contest-level|Contest.find_sample_size", f"assertion estimates {each}, contest estimate {got} (attribute {con2.sample_size})"))
+    if got != want or attr2 != want:
+        out.append(("C16|contest-level|Contest.find_sample_size", f"assertion estimates {each}, contest estimate {got} (attribute {attr2})"))
+    if got_again != max(each0.values()):
+        out.append(("C16|contest-level|second-call-on-same-contest", f"second Contest.find_sample_size with error rate 0: assertion estimates {each0}, contest estimate {got_again}"))
     if size3 != want:
         out.append(("C16|contest-level|Audit.find_sample_size", f"assertion estimates {each}, contest.sample_size after Audit.find_sample_size = {size3}"))
     want4 = max(v for k, v in each.items() if k != first)
